@@ -239,14 +239,18 @@ def snapshot_repro(ctx):
         for rep, sd in ((0, seed), (1, seed), (2, (seed % 2147483000) + 7)):   # a different effective seed (seed 0 = seed 1 by design)
             d = tempfile.mkdtemp(prefix="verif_c13_")
             param = ION_PARAM % (sub[0], sub[1], sub[2], he, nph, nit, sd, diffuse)
-            res = simrun.run_sim(binary, param, ["--task-based"], threads=1, timeout=300, trace=False, workdir=d)
+            # the two runs with the same seed get DIFFERENT heap fill patterns (glibc MALLOC_PERTURB_):
+            # a single-thread run must depend on the seed and the input only, not on what the
+            # allocator left in fresh memory
+            res = simrun.run_sim(binary, param, ["--task-based"], threads=1, timeout=300, trace=False, workdir=d,
+                                 env={"MALLOC_PERTURB_": ("85", "170", "51")[rep]})
             h = hashlib.sha256()
             names = sorted(f for f in os.listdir(d) if f.startswith("snap"))
             for f in names:
                 h.update(f.encode()); h.update(open(os.path.join(d, f), "rb").read())
             shutil.rmtree(d, ignore_errors=True)
             if res["rc"] != 0 or res["timed_out"] or not names:
-                ctx.violation("snapshot:run-failed", "task-based photoionization run failed (rc %s, %d snapshots): %s" % (res["rc"], len(names), res["log"][-300:]),
+                ctx.violation("snapshot:run-failed", "task-based photoionization run (heap fill pattern MALLOC_PERTURB_=%s) failed (rc %s, %d snapshots): %s" % (("85", "170", "51")[rep], res["rc"], len(names), res["log"][-300:]),
                               {"param": param, "cmd": "CMacIonize --params run.param --task-based --threads 1"})
                 break
             digests.append(h.hexdigest())
